@@ -71,5 +71,11 @@ META["C07"] = {"engine": "P-persistence", "design_ref": "DESIGN.md §4 Engine P,
                "level_text": ("Exploration: generated histories, each followed by two real restarts on copies of the data directory; both directions compared (nothing missing, nothing resurrected), "
                               "deadlines within the stated tolerance. The outage is produced by letting instance 1's clock lag the wall clock."),
                "level_note": "Trusted: in-package snapshot; quiescence detection by polling the AOF channel queues; several genuine defects around re-locked/updated holds are listed as known findings and excluded by construction, which narrows the explored domain (stated in evidence)."}
+ENGINES["V-election"] = {"path": "harness/server/c12_election_test.go, c12_voter_test.go", "props": ["C12"], "kind": "PBT (rapid): pure laws, acceptor-level state machine over real ArbiterManagers, and the real voter code over net.Pipe with every delivery/loss/restart chosen by the generated schedule"}
+META["C12"] = {"engine": "V-election", "design_ref": "DESIGN.md §4 Engine V, §5 C12",
+               "technique": "property-based testing (rapid) with owned message schedules: invariants over acceptor state after every delivered message, at most one commit majority, candidate choice vs. an independent position order; pure algebraic laws for CompareAofId/Format/Store",
+               "level_text": ("Exploration of generated delivery orders, losses and restarts for 3..5 members and 2..3 candidates against the real handlers and the real voter code; "
+                              "the schedule is part of the case, so failures replay exactly. The kill -9 trials of a real 3-process cluster named in the quantifier are not built."),
+               "level_note": "Trusted: the harness network (net.Pipe ends) and its quiescence detection through the injected logger; announcements / voteSucced are not executed; four genuine election defects are listed as known findings and their triggers are excluded by construction."}
 _NOT_BUILT = "check not built yet in this session (planned in DESIGN.md); not claimed rather than faked"
 NOT_APPLICABLE = {f"C{i:02d}": _NOT_BUILT for i in range(1, 21)}
